@@ -126,6 +126,7 @@ def spellings(steps):
     if steps and all(o == 'P' and isinstance(s, str) and '.' not in s and s not in ('*', '**')
                      for o, s in steps):
         out.append('str')
+        out.append('strsub')       # the same dotted text as an instance of a str subclass (e.g. a str-Enum member)
     out.append('path')
     if steps and all(o in '[.' for o in ops):
         out.append('t')
@@ -134,9 +135,15 @@ def spellings(steps):
     return out
 
 
+class StrSub(str):
+    pass
+
+
 def make_spec(steps, spelling):
     if spelling == 'str':
         return '.'.join(s for _, s in steps)
+    if spelling == 'strsub':
+        return StrSub('.'.join(s for _, s in steps))
     if spelling == 't':
         t = T
         for op, seg in steps:
@@ -245,7 +252,71 @@ def _catchable(target, spec, where):
         raise Mismatch('not-catchable', '%s: except clauses entered: %r' % (where, caught))
 
 
+# ---------------------------------------------------------------------------
+# "the access registered for each intermediate value's type": a custom get handler registered on a Glommer
+
+def lower_get(obj, key):
+    """registered access for Slots objects: attribute lookup by lower-cased name"""
+    return getattr(obj, str(key).lower())
+
+
+def gen_registered(draw):
+    def node(d):
+        if d <= 0 or draw(st.integers(0, 3)) == 0:
+            return ['i', draw(st.integers(0, 9))]
+        tag = draw(st.sampled_from(['slots', 'slotsc', 'slotsc', 'dict']))
+        if tag == 'dict':
+            return ['dict', [[k, node(d - 1)] for k in draw(st.lists(st.sampled_from(['a', 'b']), max_size=2, unique=True))]]
+        return [tag, [[k, node(d - 1)] for k in draw(st.lists(st.sampled_from(['a', 'b', 'c']), min_size=1, max_size=3, unique=True))]]
+    target = ['slotsc', [['a', node(2)], ['b', node(2)]]]
+    paths = [draw(st.lists(st.sampled_from(['a', 'b', 'c', 'A', 'B', 'zz']), min_size=1, max_size=3)) for _ in range(draw(st.integers(2, 5)))]
+    return {'target': target, 'paths': paths, 'register_at': draw(st.integers(0, 4)),
+            'exact': draw(st.sampled_from([False, False, True]))}
+
+
+def ref_registered(target, segs, registered, exact):
+    cur = target
+    for k, seg in enumerate(segs):
+        try:
+            if isinstance(cur, dict):
+                cur = cur[seg]
+            elif isinstance(cur, tg.Slots) and registered and (not exact or type(cur) is tg.Slots):
+                cur = lower_get(cur, seg)
+            else:
+                cur = getattr(cur, seg)
+        except Exception as e:
+            return ('err', k, type(e).__name__)
+    return ('ok', cur)
+
+
+def check_registered(recipe, ctx):
+    g = glom.Glommer()
+    registered = False
+    ctx.nontrivial(0 < recipe['register_at'] < len(recipe['paths']))
+    for i, segs in enumerate(recipe['paths']):
+        if i == recipe['register_at']:
+            g.register(tg.Slots, get=lower_get, exact=recipe['exact'])
+            registered = True
+        target = tg.build(recipe['target']).obj
+        exp = ref_registered(target, segs, registered, recipe['exact'])
+        spec = '.'.join(segs) if i % 2 == 0 else Path(*segs)
+        where = 'call #%d (handler for Slots %sregistered before call #%d): glom(%r, %r)' % (
+            i, 'exactly ' if recipe['exact'] else '', recipe['register_at'], target, spec)
+        try:
+            got = ('ok', g.glom(target, spec))
+        except PathAccessError as e:
+            got = ('err', e.part_idx, type(e.exc).__name__)
+        except Exception as e:
+            raise Mismatch('wrong-exception-class', '%s: %s: %r' % (where, type(e).__name__, e))
+        ctx.label('exp-' + exp[0], 'registered' if registered else 'not-yet-registered')
+        if exp[0] != got[0] or (exp[0] == 'err' and exp != got) or (exp[0] == 'ok' and not tg.same(exp[1], got[1])):
+            raise Mismatch('registered-access', '%s: expected %r, got %r' % (where, exp, got))
+    ctx.outcome([recipe['paths'], recipe['register_at']])
+
+
 SUBS = [
     Sub('walk', check, gen=gen, quick=6000, thorough=15000,
         floors={'exp-ok': 0.2, 'exp-err': 0.2, 'fail-at-k>=1': 0.08, 'spelling-str': 0.1, 'spelling-t': 0.01}),
+    Sub('registered', check_registered, gen=gen_registered, quick=1200, thorough=5000,
+        floors={'registered': 0.3, 'not-yet-registered': 0.1}),
 ]
